@@ -139,3 +139,44 @@ Proof. exists (EFor [(101%N, DList (EList [])); (102%N, DList (EList [ENum 1; EN
 Theorem evaluations_repeatable cartf f S es :
   thread (run cartf f) S es = (map (fun e => fst (run cartf f S e)) es, S).
 Proof. apply thread_pure. intros e _. rewrite run_refines. reflexivity. Qed.
+
+(* ---------- some / every are the three-valued or / and folds of the FEEL semantics ---------- *)
+Definition tri_some (acc : value) (rs : list value) : value :=
+  if is_true acc || existsb is_true rs then VBool true
+  else if is_boolean acc && forallb is_boolean rs then VBool false else VNull.
+
+Definition tri (v : value) : Prop := match v with VBool _ | VNull => True | _ => False end.
+Lemma or3_tri a b : tri (or3 a b).
+Proof. destruct a as [|[|]| | | | | | | |], b as [|[|]| | | | | | | |]; exact I. Qed.
+Lemma and3_tri a b : tri (and3 a b).
+Proof. destruct a as [|[|]| | | | | | | |], b as [|[|]| | | | | | | |]; exact I. Qed.
+
+Lemma fold_or3 rs : forall acc, tri acc -> fold_left or3 rs acc = tri_some acc rs.
+Proof. induction rs as [|r rs IH]; intros acc Ht.
+  - unfold tri_some. cbn [fold_left existsb forallb]. destruct acc as [|[|]| | | | | | | |]; try reflexivity; destruct Ht.
+  - cbn [fold_left]. rewrite IH by apply or3_tri. unfold tri_some. cbn [existsb forallb].
+    destruct acc as [|[|]| | | | | | | |]; try destruct Ht; destruct r as [|[|]| | | | | | | |]; cbn [or3 is_true is_boolean orb andb];
+    try reflexivity; destruct (existsb is_true rs); try reflexivity; destruct (forallb is_boolean rs); reflexivity. Qed.
+
+Theorem some_is_or_fold rs : existsb poison rs = false -> quant_some rs = fold_left or3 rs (VBool false).
+Proof. intros H. unfold quant_some. rewrite H, fold_or3 by exact I. unfold tri_some. cbn [is_true is_boolean orb andb].
+  destruct (existsb is_true rs); reflexivity. Qed.
+
+Definition tri_every (acc : value) (rs : list value) : value :=
+  if is_false acc || existsb is_false rs then VBool false
+  else if is_boolean acc && forallb is_boolean rs then VBool true else VNull.
+
+Lemma fold_and3 rs : forall acc, tri acc -> fold_left and3 rs acc = tri_every acc rs.
+Proof. induction rs as [|r rs IH]; intros acc Ht.
+  - unfold tri_every. cbn [fold_left existsb forallb]. destruct acc as [|[|]| | | | | | | |]; try reflexivity; destruct Ht.
+  - cbn [fold_left]. rewrite IH by apply and3_tri. unfold tri_every. cbn [existsb forallb].
+    destruct acc as [|[|]| | | | | | | |]; try destruct Ht; destruct r as [|[|]| | | | | | | |]; cbn [and3 is_false is_boolean orb andb];
+    try reflexivity; destruct (existsb is_false rs); try reflexivity; destruct (forallb is_boolean rs); reflexivity. Qed.
+
+Theorem every_is_and_fold rs : existsb poison rs = false -> quant_every rs = fold_left and3 rs (VBool true).
+Proof. intros H. unfold quant_every. rewrite H, fold_and3 by exact I. unfold tri_every. cbn [is_false is_boolean orb andb].
+  destruct (existsb is_false rs); reflexivity. Qed.
+
+Theorem quantifiers_orig_refuted :
+  quant_some_orig [VNull] <> fold_left or3 [VNull] (VBool false) /\ quant_every_orig [VNull] <> fold_left and3 [VNull] (VBool true).
+Proof. vm_compute. split; discriminate. Qed.
